@@ -108,6 +108,12 @@ func registerValidateModels(e *Engine) {
 				}
 			}
 			hit = tOr(hit, x.deepEqual(data, el))
+			// "attempt comparison after type conversion": the value converted to the enum element's type
+			dv, ev := data.(*IfaceVal), el.(*IfaceVal)
+			if dv.T != nil && ev.T != nil && !types.Identical(dv.T, ev.T) && sameBasicClass(dv.T, ev.T) {
+				conv := x.convert(dv.V, dv.T, ev.T)
+				hit = tOr(hit, x.deepEqual(&IfaceVal{T: ev.T, V: conv}, el))
+			}
 		}
 		if x.decide(hit) {
 			return nilRes(x, fn)
@@ -171,6 +177,20 @@ func registerSwagConvertBool(e *Engine) {
 		}
 		return TupleVal{r, nilIface}, true
 	}
+}
+
+// both numeric, or both strings (reflect's ConvertibleTo also allows integer -> string: not modelled)
+func sameBasicClass(a, b types.Type) bool {
+	ab, ok1 := a.Underlying().(*types.Basic)
+	bb, ok2 := b.Underlying().(*types.Basic)
+	if !ok1 || !ok2 {
+		return false
+	}
+	num := types.IsInteger | types.IsFloat
+	if ab.Info()&num != 0 && bb.Info()&num != 0 {
+		return true
+	}
+	return ab.Info()&types.IsString != 0 && bb.Info()&types.IsString != 0
 }
 
 func mkSliceOfIface(sl *SliceVal) Value {
